@@ -118,3 +118,37 @@ Section Obj.
   Theorem instances_spec t o : In o (instances c g t) <-> Needed oc o /\ cls_of g o = t.
   Proof. unfold instances. rewrite filter_In, (proj2 oplan_spec o), Nat.eqb_eq. tauto. Qed.
 End Obj.
+
+(* ---- marks with values, across several run_tasks calls on the same objects *)
+Lemma apply_run_length m g marks r : List.length (apply_run m g marks r) = nobj g.
+Proof. unfold apply_run. now rewrite map_length, seq_length. Qed.
+
+Lemma apply_run_nth m g marks r o : o < nobj g ->
+  nth_error (apply_run m g marks r) o =
+  Some (if mem o (marked (r_cfg r) g (r_ok r)) then mark_obj m (nth o marks None) (r_meta r (cls_of g o)) else nth o marks None).
+Proof.
+  intros Ho. unfold apply_run. rewrite nth_error_map.
+  rewrite (nth_error_nth' (seq 0 (nobj g)) 0) by (now rewrite seq_length).
+  rewrite seq_nth by exact Ho. reflexivity.
+Qed.
+
+(* with unconditional marking: after any history of calls, every instance the last call completed carries the outcome of the last
+   call — whatever it carried before — and every other object carries what it carried before that call *)
+Theorem last_run_marks g marks rs r o : o < nobj g ->
+  nth_error (apply_runs MarkAlways g marks (rs ++ [r])) o =
+  Some (if mem o (marked (r_cfg r) g (r_ok r)) then Some (r_meta r (cls_of g o)) else nth o (apply_runs MarkAlways g marks rs) None).
+Proof.
+  intros Ho. unfold apply_runs. rewrite fold_left_app. cbn [fold_left].
+  rewrite apply_run_nth by exact Ho. destruct (mem o _); reflexivity.
+Qed.
+
+(* marking only what is not marked yet: an object that is completed again keeps the outcome of its first completion *)
+Theorem mark_if_unset_refuted : exists g marks r1 r2 o,
+  o < nobj g /\ mem o (marked (r_cfg r2) g (r_ok r2)) = true /\
+  nth_error (apply_runs MarkIfUnset g marks [r1; r2]) o <> Some (Some (r_meta r2 (cls_of g o))).
+Proof.
+  pose (c := {| ntasks := 1; deps := [[]]; reads := [[]]; behs := []; ty := []; maxpar := []; cacheable := []; req := [0]; pre := []; bust := true; cont := true |}).
+  exists {| nobj := 1; ocls := [0]; okids := [[]]; oreq := [0] |}, [None],
+         {| r_cfg := c; r_ok := [0]; r_meta := fun _ => 1 |}, {| r_cfg := c; r_ok := [0]; r_meta := fun _ => 2 |}, 0.
+  split; [cbn [nobj]; lia|]. split; [vm_compute; reflexivity|]. vm_compute. discriminate.
+Qed.
